@@ -8,7 +8,9 @@ import (
 	"testing"
 
 	textwire "github.com/textwire/textwire/v2"
+	"github.com/textwire/textwire/v2/config"
 	"verif/lib/harness"
+	"verif/lib/tree"
 )
 
 // C20/array-results: whatever way an array function builds its result - in
@@ -508,4 +510,150 @@ func TestC20_UnsupportedResults(t *testing.T) {
 		}
 	}
 	c.ExhaustivePart(fmt.Sprintf("%d result shapes x %d call forms", len(shapes), len(tmpls)))
+}
+
+// ---------------------------------------------------------------- one call site, receivers of several types
+
+type fnSiteCase struct {
+	Kinds []string `json:"kinds"` // receiver kinds met by the one call site, in order
+	Via   string   `json:"via"`   // loop | renders
+}
+
+var c20SiteValues = map[string]any{"str": "a", "int": 1, "float": 2.5, "bool": true, "arr": []any{1, 2}, "nil": nil, "obj": map[string]any{"k": 1}}
+
+// c20SiteWant: what zzTag gives for a value of the kind ("" and false: an error - the name is not registered for that type).
+func c20SiteWant(kind string) (string, bool) {
+	switch kind {
+	case "str":
+		return "S(a)", true
+	case "int":
+		return "101", true
+	case "bool":
+		return "B(true)", true // rendered through the data path below
+	}
+	return "", false
+}
+
+func c20Site(c *harness.Check, cs fnSiteCase) string {
+	failure := ""
+	pi := c.Guard("json", mustJSON(cs), func() {
+		textwire.VerifReset()
+		regs := []error{
+			textwire.RegisterStrFunc("zzTag", func(s string, a ...any) string { return "S(" + s + ")" }),
+			textwire.RegisterIntFunc("zzTag", func(i int, a ...any) int { return i + 100 }),
+			textwire.RegisterBoolFunc("zzTag", func(b bool, a ...any) bool { return !b }),
+		}
+		for _, err := range regs {
+			if err != nil {
+				failure = "harness: " + err.Error()
+				return
+			}
+		}
+		wantOf := func(kind string) (string, bool) {
+			w, ok := c20SiteWant(kind)
+			if kind == "bool" {
+				// as the same Go value passed as data renders
+				w, _ = textwire.EvaluateString("{{ v }}", map[string]any{"v": false})
+			}
+			return w, ok
+		}
+		if cs.Via == "loop" {
+			items := make([]any, len(cs.Kinds))
+			want, fails := "", false
+			for i, k := range cs.Kinds {
+				items[i] = map[string]any{"v": c20SiteValues[k]}
+				if w, ok := wantOf(k); ok && !fails {
+					want += w + ";"
+				} else {
+					fails = true
+				}
+			}
+			out, err := textwire.EvaluateString("@each(o in items){{ o.v.zzTag() }};@end", map[string]any{"items": items})
+			switch {
+			case fails && err == nil:
+				failure = fmt.Sprintf("a receiver whose type has no zzTag: expected an error, got %q", out)
+			case !fails && (err != nil || out != want):
+				failure = fmt.Sprintf("rendered %q / %v, each pass calls the function registered for its receiver's type: %q", out, err, want)
+			}
+			return
+		}
+		// one loaded template rendered once per kind
+		if _, err := tree.Materialise(tree.Tree{"t/page.tw": {Content: "[{{ v.zzTag() }}]"}}); err != nil {
+			return
+		}
+		tpl, lerr := textwire.NewTemplate(&config.Config{TemplateDir: "t", TemplateExt: ".tw"})
+		if lerr != nil {
+			failure = "harness: " + lerr.Error()
+			return
+		}
+		for i, k := range cs.Kinds {
+			out, ferr := tpl.String("page", map[string]any{"v": c20SiteValues[k]})
+			w, ok := wantOf(k)
+			switch {
+			case !ok && ferr == nil:
+				failure = fmt.Sprintf("render %d (%s receiver, no zzTag for that type): expected an error, got %q", i+1, k, out)
+			case ok && (ferr != nil || out != "["+w+"]"):
+				failure = fmt.Sprintf("render %d (%s receiver): got %q / %v, the function registered for that type gives %q", i+1, k, out, ferr, "["+w+"]")
+			}
+			if failure != "" {
+				return
+			}
+		}
+	})
+	textwire.VerifReset()
+	if pi != nil {
+		return "panic: " + pi.Value
+	}
+	if strings.HasPrefix(failure, "harness:") {
+		c.Class(failure)
+		return ""
+	}
+	return failure
+}
+
+func init() {
+	harness.RegisterReplayer("C20/one-call-site", func(raw json.RawMessage) string {
+		cs, err := unJSON[fnSiteCase](raw)
+		if err != nil {
+			return "bad case: " + err.Error()
+		}
+		return c20Site(harness.New(nopTB{}, "C20", "replay", ""), cs)
+	})
+}
+
+func TestC20_OneCallSite(t *testing.T) {
+	kinds := []string{"str", "int", "bool", "float", "arr", "nil", "obj"}
+	c := harness.New(t, "C20", "one-call-site",
+		"a name registered for strings, integers and booleans, called at one place whose receiver is of another type each time - in the passes of one loop ('@each(o in items){{ o.v.zzTag() }}') and in consecutive renders of one loaded template - for every ordered pair and triple of seven receiver kinds (string, integer, boolean, float, array, nil, object): each evaluation calls the function registered for the type of its own receiver, and a receiver whose type has none is an error naming no other type's function. Exhaustive. Non-trivial: >= 2 different kinds. Distinct by construction.")
+	defer c.Finish()
+	idx := 0
+	run := func(ks ...string) {
+		for _, via := range []string{"loop", "renders"} {
+			idx++
+			if !harness.Mine(idx) {
+				continue
+			}
+			cs := fnSiteCase{Kinds: ks, Via: via}
+			distinct := map[string]bool{}
+			for _, k := range ks {
+				distinct[k] = true
+			}
+			c.CaseEnum(len(distinct) >= 2, "via:"+via)
+			if idx%23 == 0 {
+				c.Sample(cs)
+			}
+			if f := c20Site(c, cs); f != "" {
+				c.Fail(t, kindOf(f), cs, "the function of the receiver's own type", f, f)
+			}
+		}
+	}
+	for _, a := range kinds {
+		for _, b := range kinds {
+			run(a, b)
+			for _, d := range kinds[:4] {
+				run(a, b, d)
+			}
+		}
+	}
+	c.ExhaustivePart("7 x 7 pairs + 7 x 7 x 4 triples of receiver kinds x {one loop, consecutive renders}")
 }
